@@ -92,7 +92,7 @@ fn letters(lists: &[Vec<u8>], params: &[(u64, u8, u8)], src: u8) -> Vec<Blk> {
     let mut v = vec![];
     for l in lists {
         for (gp, cb, da) in params {
-            v.push(Blk { txs: l.clone(), gp: *gp, cb: *cb, da: *da, src });
+            v.push(Blk { txs: l.clone(), gp: *gp, cb: *cb, da: *da, src, bulk: 0 });
         }
     }
     v
@@ -150,7 +150,9 @@ fn plans(cli: &Cli, prop: Prop) -> Vec<Plan> {
             out.push(Plan { subject: ExecSubject::new("deep: histories over the core templates", u.clone(), prop, deep), depth: if thorough { 2 } else { 3 } });
             if thorough {
                 let l3 = letters(&lists(&core[..10], 3), &[(1, 1, 1)], 0);
-                out.push(Plan { subject: ExecSubject::new("triples: <=3 of 10 core templates, 2 blocks", u.clone(), prop, l3), depth: 2 });
+                out.push(Plan { subject: ExecSubject::new("triples: <=3 of 10 core templates, 1 block", u.clone(), prop, l3), depth: 1 });
+                let singles = letters(&lists(&core[..13], 1), &[(0, 0, 1), (1, 1, 0)], 0);
+                out.push(Plan { subject: ExecSubject::new("deeper: 4-block histories of single-transaction blocks", u.clone(), prop, singles), depth: 4 });
             }
             // (c) tight limits
             for v in [CpVariant::TinyGas, CpVariant::TinySize] {
@@ -202,18 +204,36 @@ fn plans(cli: &Cli, prop: Prop) -> Vec<Plan> {
                 } else {
                     t(&u, &["xfer", "call_oog", "spin", "call_ok", "big", "xfer_b"])
                 };
-                let params: Vec<(u64, u8, u8)> = if thorough { vec![(0, 0, 0), (0, 1, 0), (1, 0, 0), (1, 1, 0), (2, 2, 0), (3, 1, 0)] } else { vec![(0, 0, 0), (0, 1, 0), (1, 0, 0), (1, 1, 0), (2, 2, 0)] };
-                let max_len = if v == CpVariant::Default { 2 } else if thorough { 4 } else { 3 };
+                let params: Vec<(u64, u8, u8)> = if thorough {
+                    vec![(0, 0, 0), (0, 1, 0), (1, 0, 0), (1, 1, 0), (2, 2, 0), (3, 1, 0)]
+                } else if v == CpVariant::Default {
+                    vec![(0, 0, 0), (0, 1, 0), (1, 0, 0), (1, 1, 0), (2, 2, 0)]
+                } else {
+                    vec![(0, 1, 0), (1, 0, 0), (2, 2, 0)]
+                };
+                let max_len = if v == CpVariant::Default { 2 } else if thorough { 4 } else if src == SRC_HONEST { 3 } else { 2 };
                 let l = letters(&lists(&set, max_len), &params, src);
                 let kind = ["once-source", "greedy-source", "honest-source"][src as usize];
                 out.push(Plan { subject: ExecSubject::new(&format!("{v:?} {kind}: lists<={max_len}"), u, prop, l), depth: if thorough && v == CpVariant::Default { 2 } else { 1 } });
+            }
+            if thorough {
+                // the transaction-count limit with its production value (u16::MAX - 1, plus the mint):
+                // sources that return more transactions than that
+                let n = fuel_core_executor::executor::max_tx_count() as usize + 40;
+                let u = Universe::new_bulk(CpVariant::Huge, 0, n);
+                let mut l = vec![];
+                for src in [SRC_GREEDY, SRC_ONCE] {
+                    l.push(Blk { txs: vec![], gp: 1, cb: 1, da: 0, src, bulk: n as u32 });
+                }
+                l.push(Blk { txs: vec![], gp: 1, cb: 1, da: 0, src: SRC_GREEDY, bulk: 1000 });
+                out.push(Plan { subject: ExecSubject::new("count limit: sources returning more than max_tx_count transactions", u, prop, l), depth: 1 });
             }
         }
         Prop::C45 => {
             let u = Universe::new(CpVariant::Default, 1);
             let core = t(&u, &["xfer", "call_ok", "call_rvrt", "create", "msgdata_ok"]);
             let mut l = letters(&lists(&core, 1), &[(1, 1, 1)], 0);
-            l.push(Blk { txs: t(&u, &["xfer", "call_ok"]), gp: 0, cb: 0, da: 0, src: 0 });
+            l.push(Blk { txs: t(&u, &["xfer", "call_ok"]), gp: 0, cb: 0, da: 0, src: 0, bulk: 0 });
             let mut s = ExecSubject::new("chains over 5 templates x dry-run request grid", u, prop, l);
             s.thorough = thorough;
             out.push(Plan { subject: s, depth: if thorough { 3 } else { 2 } });
@@ -222,7 +242,9 @@ fn plans(cli: &Cli, prop: Prop) -> Vec<Plan> {
             for script in 1..=3u8 {
                 let u = Universe::new(CpVariant::Default, script);
                 let ls: Vec<Vec<u8>> = if thorough {
-                    lists(&t(&u, &["xfer", "msg_relayed", "msg_early", "dep"]), 2)
+                    let mut v = lists(&t(&u, &["xfer", "msg_relayed", "msg_early", "dep", "call_ok"]), 1);
+                    v.extend([t(&u, &["xfer", "dep"]), t(&u, &["msg_relayed", "msg_early"]), t(&u, &["msg_early", "msg_relayed"]), t(&u, &["xfer", "xfer"]), t(&u, &["msg_relayed", "msg_relayed"])]);
+                    v
                 } else {
                     vec![vec![], t(&u, &["msg_relayed"]), t(&u, &["xfer"]), t(&u, &["msg_early"]), t(&u, &["xfer", "dep"])]
                 };
@@ -234,7 +256,7 @@ fn plans(cli: &Cli, prop: Prop) -> Vec<Plan> {
                     }
                 }
                 let l = letters(&ls, &params, 0);
-                out.push(Plan { subject: ExecSubject::new(&format!("relayer script {script}: DA advances 0..=3"), u, prop, l), depth: if thorough { 4 } else { 3 } });
+                out.push(Plan { subject: ExecSubject::new(&format!("relayer script {script}: DA advances 0..=3"), u, prop, l), depth: 3 });
             }
         }
     }
@@ -245,7 +267,7 @@ fn required_facts(prop: Prop) -> Vec<&'static str> {
     match prop {
         Prop::C01 => vec!["c01:validated", "status:failed", "skip:TransactionIdCollision", "skip:TransactionValidity.CoinDoesNotExist", "skip:GasOverflow"],
         Prop::C02 => vec!["c02:events-checked", "c02:retryable-kept", "c02:zero-output-not-created", "skip:TransactionValidity.CoinDoesNotExist", "skip:TransactionValidity.MessageSpendTooEarly"],
-        Prop::C03 => vec!["c03:limits-checked-nonempty", "c03:mutant-rejected:amount+1", "c03:mutant-rejected:index+1", "c03:mutant-rejected:no-mint", "c03:mutant-rejected:two-mints", "skip:GasOverflow"],
+        Prop::C03 => vec!["c03:limits-checked-nonempty", "c03:mutant-rejected:amount+1", "c03:mutant-rejected:amount+1-consistent", "c03:mutant-rejected:amount-1-consistent", "c03:mutant-rejected:index+1", "c03:mutant-rejected:no-mint", "c03:mutant-rejected:two-mints", "skip:GasOverflow"],
         Prop::C04 => vec![
             "c04:revert-checked",
             "c04:retryable-kept",
